@@ -106,6 +106,40 @@ theorem valways_foreign {τ : Nat} {I : View → Prop} {v : View} {ops : List FO
 theorem valways_mono {τ : Nat} {I J : View → Prop} {v : View} {ops : List FOp}
     (hIJ : ∀ v, I v → J v) (h : VAlways τ I v ops) : VAlways τ J v ops := fun k => hIJ _ (h k)
 
+/-! ### every call together with the state it is issued in -/
+
+def VNext (τ : Nat) (R : View → FOp → Prop) (v : View) (ops : List FOp) : Prop :=
+  ∀ k op, ops[k]? = some op → R (vrun τ v (ops.take k)) op
+
+theorem vnext_nil {τ : Nat} {R : View → FOp → Prop} {v : View} : VNext τ R v [] := by
+  intro k op h; simp at h
+
+theorem vnext_cons {τ : Nat} {R : View → FOp → Prop} {v : View} {op : FOp} {r : List FOp} :
+    VNext τ R v (op :: r) ↔ R v op ∧ VNext τ R (vstep τ v op) r := by
+  constructor
+  · intro h
+    refine ⟨by simpa using h 0 op rfl, fun k x hx => ?_⟩
+    simpa using h (k + 1) x (by simpa using hx)
+  · intro ⟨h0, h⟩ k x hx
+    cases k with
+    | zero => simp at hx; subst hx; simpa using h0
+    | succ k => simpa using h k x (by simpa using hx)
+
+theorem vnext_append {τ : Nat} {R : View → FOp → Prop} {v : View} {a b : List FOp} :
+    VNext τ R v (a ++ b) ↔ VNext τ R v a ∧ VNext τ R (vrun τ v a) b := by
+  induction a generalizing v with
+  | nil => simp [vnext_nil]
+  | cons op r ih => simp only [List.cons_append, vnext_cons, vrun_cons, ih, and_assoc]
+
+/-- Calls on which `R` holds in any state. -/
+theorem vnext_trivial {τ : Nat} {R : View → FOp → Prop} {v : View} {ops : List FOp}
+    (h : ∀ op ∈ ops, ∀ v, R v op) : VNext τ R v ops :=
+  fun _ op hk => h op (List.mem_of_getElem? hk) _
+
+theorem vnext_of_valways {τ : Nat} {R : View → FOp → Prop} {I : View → Prop} {v : View} {ops : List FOp}
+    (hIR : ∀ v op, I v → R v op) (h : VAlways τ I v ops) : VNext τ R v ops :=
+  fun j op _ => hIR _ op (h j)
+
 /-- `{P} ops {Q}` with `I` holding at every intermediate point. -/
 def Triple (τ : Nat) (P : View → Prop) (ops : List FOp) (I Q : View → Prop) : Prop :=
   ∀ v, P v → VAlways τ I v ops ∧ Q (vrun τ v ops)
